@@ -120,7 +120,8 @@ def spec_results(pre, prog, hard):
     """All (outcome, Spec) pairs the statement allows for the program with at most one failure somewhere.
     Failure points: every operation instance executed, every block entry and every block exit.  A failing additive
     operation or block has no effect; a failing removal may have removed its target from the registry entirely or not
-    at all, and may leave the target's artifact behind as `pending`."""
+    at all, and may leave the target's artifact behind as `pending`; a removal whose error is swallowed may also have done
+    nothing and returned normally, the program continuing (variant 3)."""
     base = Spec()
     for p in pre:
         try:
@@ -130,7 +131,7 @@ def spec_results(pre, prog, hard):
     results = []
     n = 0
     while True:
-        for variant in (0, 1, 2):
+        for variant in (0, 1, 2, 3):
             s = copy.deepcopy(base)
             cnt = [n]
             used = [0]
@@ -165,7 +166,14 @@ def _spec_run(s, p, cnt, hard, used, variant=0):
     if k == "op":
         op = p[1:]
         if point():
-            if op[0] in ("purge", "unstore") and op[1] in s.ds and variant:
+            if variant == 3 and op[0] in REMOVAL and not hard:
+                # the failing removal did nothing AND returned normally (Datastore.trash / emptyTrash swallow ordinary
+                # errors by design, ignore_errors=True): the program goes on as if the call had been a no-op; nothing is
+                # left behind, so the statement holds.  The outcome must then be the one the REST of the program gives
+                # (used = 3, not the outcome-free 2).  A BaseException is never swallowed.
+                used[0] = 3
+                return
+            if op[0] in ("purge", "unstore") and op[1] in s.ds and variant in (1, 2):
                 # a removal that fails: registry all-or-nothing; the artifact may be left behind, to be collected
                 d = op[1]
                 if op[0] == "purge":
@@ -179,7 +187,7 @@ def _spec_run(s, p, cnt, hard, used, variant=0):
                 else:
                     s.files.pop(d, None)
                     s.empty()
-            elif op[0] == "emptytrash" and variant:
+            elif op[0] == "emptytrash" and variant in (1, 2):
                 used[0] = 2
                 if variant == 2:
                     s.empty()
